@@ -289,6 +289,9 @@ class _ScriptTransport:
             self.i += 1
             if ev[0] == 'packet':
                 return ev[1]
+            if ev[0] == 'error':
+                # a frame the transport rejects (unsupported version, broken stream): the router must carry on
+                raise RuntimeError('Unsupported CPX version 1 instead of 0')
             self.on_event(ev)
 
 
@@ -315,6 +318,9 @@ def run_routing(case):
     evs = []
     seq = 0
     for ev in events:
+        if ev[0] == 'error':
+            evs.append(('error', None))
+            continue
         if ev[0] == 'packet':
             pk = dict(ev[1])
             pk['data'] = [seq & 0xff, seq >> 8] + list(pk['data'])
@@ -329,7 +335,7 @@ def run_routing(case):
     for ev in evs:
         if ev[0] == 'packet':
             (required if ev[2]['fn'] in model_reg else optional).setdefault(ev[2]['fn'], []).append(ev[2])
-        else:
+        elif ev[0] != 'error':
             model_reg.add(ev[1])
     tr = _ScriptTransport([(e[0], e[1]) for e in evs], on_event)
     router = CPXRouter(tr)
@@ -375,7 +381,10 @@ def routing_strategy(draw):
     n = draw(st.integers(1, 25))
     events = []
     for _ in range(n):
-        k = draw(st.sampled_from(['packet', 'packet', 'packet', 'register', 'take']))
+        k = draw(st.sampled_from(['packet', 'packet', 'packet', 'packet', 'register', 'take', 'error']))
+        if k == 'error':
+            events.append(['error', 0])
+            continue
         fn = draw(st.sampled_from(fns))
         if k == 'packet':
             events.append(['packet', {'src': draw(st.sampled_from([1, 2, 4])), 'dst': 3, 'fn': fn, 'last': draw(st.booleans()),
